@@ -328,6 +328,7 @@ func crossfire(types [2]string, rounds, clients int) map[string]any {
 		s.SetStatus(b.Name, domain.StatusHealthy)
 	}
 	paths := []string{"api/generate", "v1/chat/completions", "api/chat", "v1/completions"}
+	vlib.Breadcrumb(map[string]any{"kind": "crossfire", "types": types, "rounds": rounds, "clients": clients})
 	total, strays, first := 0, 0, ""
 	for r := 0; r < rounds; r++ {
 		var wg sync.WaitGroup
